@@ -15,6 +15,7 @@ def run(tier: str, seed: int):
         serial = list(F.fam_shapes(1, 3, batch=1)) + list(F.fam_faults(2, 3, cofs=(True,), kinds=('raise',)))
         rule = ('all DAG shapes n<=4 x requested subsets, every completion order (batch<=2); n<=3 placements x dup x '
                 'types x request variants x pre-cache; single faults (raise/died) n<=4; real SerialRunner slice')
+        e3c = list(F.fam_e3(list(F.fam_shapes(1, 3, pre=False)) + list(F.fam_faults(2, 3, cofs=(True,), reqs='sinks')), workers=(1, 2), liveness=False))
     else:
         cfgs = (list(F.fam_shapes(1, 5, batch=2, pre=False)) + list(F.fam_shapes(1, 4, batch=3))
                 + list(F.fam_variants(3, batch=3))
@@ -22,4 +23,5 @@ def run(tier: str, seed: int):
                 + list(F.fam_faults(5, 5, max_faults=1, reqs='sinks', cofs=(True,))))
         serial = list(F.fam_shapes(1, 4, batch=1)) + list(F.fam_faults(2, 4, cofs=(True,), kinds=('raise',)))
         rule = 'n<=5 shapes (batch<=2), n<=4 (batch<=3) with pre-cache; fault sets <=2 on n<=4, <=1 on n=5'
-    return run_e2_property('C02', tier, seed, cfgs, serial_configs=serial, rule=rule, assumptions=ASSUME)
+        e3c = list(F.fam_e3(list(F.fam_shapes(1, 3)) + list(F.fam_faults(2, 3, max_faults=2, cofs=(True,))), workers=(1, 2, None))) + list(F.fam_e3(F.fam_faults(4, 4, cofs=(True,), reqs='sinks'), workers=(2,), liveness=False))
+    return run_e2_property('C02', tier, seed, cfgs, serial_configs=serial, e3_configs=e3c, rule=rule, assumptions=ASSUME)
